@@ -586,7 +586,7 @@ func r04_4(r *Report, p *Program) {
 				return true
 			}
 			rt, isR := in.(*ssa.Return)
-			return isR && !engine.ReturnsFreshError(rt)
+			return isR && !isErrReturn(rt)
 		}}).Find(); w != nil {
 			okErr, whyErr = false, "a desired child that does not match the selector does not abort the sync with an error (reaches "+p.InstrPos(w.Instr)+")"
 		}
